@@ -31,14 +31,8 @@ def opGrammar : Handler := fun args => do
   let s ← argChars args 0
   .ok (boolBytes (Spec.Num.isNumber s) ++ boolBytes (Spec.Num.isDecimal s))
 
-/-- `trig.c08.expnear input prec` → `1` when the case falls under the known findings K-C08-1/2 -/
-def opTrig : Handler := fun args => do
-  let s ← argChars args 0
-  let p ← argInt args 1
-  .ok (boolBytes (Spec.Num.trigExpNear s p))
-
 def handlers : List (String × Handler) :=
   [("model.number", opNumber), ("model.decimal", opDecimal), ("spec.holds.c08", opHolds),
-   ("spec.grammar.c08", opGrammar), ("trig.c08.expnear", opTrig)]
+   ("spec.grammar.c08", opGrammar)]
 
 end Verif.Driver.C08
